@@ -206,10 +206,16 @@ def shard(p):
             s_ab2, _d = V.factors_si([(a, 1), (b, 1)])
             s_ab1, _d = V.factors_si([(ab, 1)])
             xs, x = mag(rng)
-            if rng.random() < 0.5:
+            r_ = rng.random()
+            if r_ < 0.3:
                 q, want = "%s %s %s to %s" % (xs, a["word"], b["word"], ab["word"]), x * s_ab2 / s_ab1
-            else:
+            elif r_ < 0.6:
                 q, want = "%s %s to %s %s" % (xs, ab["word"], a["word"], b["word"]), x * s_ab1 / s_ab2
+            elif r_ < 0.8:
+                # both spellings as cast TARGETS in one chain (a memo of targets keyed without blanks, seed C09-i)
+                q, want = "%s %s to %s %s to %s" % (xs, ab["word"], a["word"], b["word"], ab["word"]), x
+            else:
+                q, want = "%s %s %s to %s to %s %s" % (xs, a["word"], b["word"], ab["word"], a["word"], b["word"]), x
             checks.append(("confusable", [q], (lambda vs, want=want: None if vs[0][0] == want else "is %s, the scales of the two spellings give %s" % (vs[0][0], want))))
         # provenance: a quantity that was not typed in but looked up (its unit comes out of the stored data, not out of the unit
         # parser) or computed converts like the literal of the same value and unit (seed C03-g: a field of the unit that only the
